@@ -4,6 +4,7 @@ package main
 // joins, loops cut at invariants.
 
 import (
+	"go/ast"
 	"fmt"
 	"go/token"
 	"go/types"
@@ -39,6 +40,7 @@ type Frame struct {
 	label    string
 	quantDepth int
 	localVals  map[string]ssa.Value // source-level local variables (from DebugRef), for `at` clauses
+	loopLocals map[*LoopSpec]map[string]ssa.Value
 	localAddr  map[string]bool
 	atDone     map[*AtClause]bool
 	freshArraysOnly bool
@@ -346,6 +348,7 @@ func (f *Frame) enterLoop(h *ssa.BasicBlock, li *loopInfo, live []inEdge, header
 	}
 	spec := f.loopSpec(li)
 	fname := f.label
+	f.resolveLoopLocals(h, li, spec)
 	// invariants hold on entry
 	invs := f.loopInvariants(li, spec, phis)
 	for _, iv := range invs {
@@ -764,6 +767,9 @@ func (f *Frame) evalLoopClause(cl *Clause, st *State, phis []*ssa.Phi, next map[
 	// source-level locals (not loop-carried), by name
 	for li, name := range spec.Locals {
 		v, has := f.localVals[name]
+		if rv, ok := f.loopLocals[spec][name]; ok {
+			v, has = rv, true
+		}
 		if !has {
 			panic(unsupportedErr{fmt.Sprintf("contract-target-changed: %s: local %q of a loop clause is not defined before the loop", f.label, name)})
 		}
@@ -797,4 +803,56 @@ func (f *Frame) entryHeap() HeapSnap {
 		fr = fr.parent
 	}
 	return HeapSnap{map[string]Term{}, 0}
+}
+
+// resolveLoopLocals finds, for every `locals` name of a loop specification,
+// the SSA value the loop itself uses for that variable when the loop does not
+// modify it: a debug reference inside the loop whose value is defined outside.
+// (The most recently executed debug reference, used otherwise, may belong to a
+// different branch of an earlier loop.)
+func (f *Frame) resolveLoopLocals(h *ssa.BasicBlock, li *loopInfo, spec *LoopSpec) {
+	if spec == nil || len(spec.Locals) == 0 {
+		return
+	}
+	if f.loopLocals == nil {
+		f.loopLocals = map[*LoopSpec]map[string]ssa.Value{}
+	}
+	if f.loopLocals[spec] != nil {
+		return
+	}
+	m := map[string]ssa.Value{}
+	f.loopLocals[spec] = m
+	inLoop := func(b *ssa.BasicBlock) bool { return b == h || li.body[b] }
+	var blocks []*ssa.BasicBlock
+	blocks = append(blocks, h)
+	for _, b := range f.fn.Blocks {
+		if li.body[b] && b != h {
+			blocks = append(blocks, b)
+		}
+	}
+	for _, name := range spec.Locals {
+		for _, b := range blocks {
+			for _, in := range b.Instrs {
+				d, ok := in.(*ssa.DebugRef)
+				if !ok || d.IsAddr {
+					continue
+				}
+				id, ok := d.Expr.(*ast.Ident)
+				if !ok || id.Name != name {
+					continue
+				}
+				if _, has := m[name]; has {
+					continue
+				}
+				switch x := d.X.(type) {
+				case *ssa.Parameter, *ssa.Const, *ssa.FreeVar, *ssa.Global, *ssa.Function:
+					m[name] = d.X
+				case ssa.Instruction:
+					if !inLoop(x.Block()) {
+						m[name] = d.X
+					}
+				}
+			}
+		}
+	}
 }
